@@ -21,7 +21,9 @@ def run(ctx):
                 ('legacy small + liveness', pc.mc_cfg('pit-A-live-legacy', 'legacy', 2, 2, 'small', 'legacy', live=True)),
                 ('v2 deferred await', pc.mc_cfg('pit-A-defer-v2', 'v2', 2, ctx.pick(2, 3), 'timing', 'v2two', defer='Def_both')),
                 ('legacy deferred await', pc.mc_cfg('pit-A-defer-legacy', 'legacy', 2, ctx.pick(2, 3), 'timing', 'legacy', defer='Def_both')),
-                ('v2 cancellation in flight', pc.mc_cfg('pit-A-race-v2', 'v2', 2, 2, 'small', 'v2two', races='Race_one'))]
+                ('v2 cancellation in flight', pc.mc_cfg('pit-A-race-v2', 'v2', 2, 2, 'small', 'v2two', races='Race_one')),
+                ('v2 reconnect', pc.mc_cfg('pit-A-reconn-v2', 'v2', ctx.pick(2, 3), 2, 'small', 'v2two', reconn=True)),
+                ('legacy reconnect', pc.mc_cfg('pit-A-reconn-legacy', 'legacy', ctx.pick(2, 3), 2, 'small', 'legacy', reconn=True))]
         if not ctx.quick:
             cfgs += [('legacy timing 3 entries', pc.mc_cfg('pit-A-timing-legacy', 'legacy', 3, 3, 'timing', 'legacy')),
                      ('v2 digest', pc.mc_cfg('pit-A-dig-v2', 'v2', 3, 2, 'dig', 'v2two')),
@@ -41,6 +43,10 @@ def run(ctx):
             cfgp = pc.mc_cfg('pit-B-race-' + front, front, 2, 1, 'timing', V, races='Race_one', invs=[], props=[])
             pc.stage_b(ctx, front, cfgp, 'cancellation in flight 2 entries', devs=DEVS[front], report_devs=False,
                        max_paths=ctx.pick(400, 8000))
+        # main_loop again on the same application object: Interests of the previous connection, new Interests
+        for front, V in (('v2', 'v2two'), ('legacy', 'legacy')):
+            cfgp = pc.mc_cfg('pit-B-reconn-' + front, front, 2, 1, 'small', V, reconn=True, invs=[], props=[])
+            pc.stage_b(ctx, front, cfgp, 'reconnect 2 entries', devs=DEVS[front], report_devs=False, max_paths=ctx.pick(400, 8000))
         # behaviours sampled from a 3-entry configuration with every dimension open (too large for a cover)
         for front, V, vmap in (('v2', 'v2two', None), ('legacy', 'legacy', None)):
             cfgp = pc.mc_cfg('pit-S-' + front, front, 3, 3, 'match', V, R='R_two', E='E_all', defer='Def_both', races='Race_one', invs=[], props=[])
